@@ -48,6 +48,9 @@ type C15 struct {
 	Tail            string         `json:"tail"`     // data sent after the negotiation window
 	ReadSize        int            `json:"read_size"`
 	Client          simnet.NetPlan `json:"client_net"`
+	// Prior: the same transport object went through an earlier opening that broke off in the
+	// middle of a negotiation sequence after these bytes (the server hung up)
+	Prior []byte `json:"prior,omitempty"`
 }
 
 func (sc *C15) opening() []byte {
@@ -111,6 +114,9 @@ func genC15(seed uint64, run int, tier string) Scenario {
 		rest -= l
 	}
 	sc.Tail = pick(r, "", "Password: ", "tail-data\r\n")
+	if r.IntN(6) == 0 {
+		sc.Prior = pick(r, []byte{tIAC}, []byte{tIAC, tDO}, []byte{tIAC, tWILL}, []byte("ab\xff"), []byte{tIAC, tDO, 1, tIAC, tDONT})
+	}
 	sc.Client = simnet.NetPlan{SegMode: pick(r, "whole", "random"), Seed: r.Uint64()}
 
 	return sc
@@ -121,8 +127,26 @@ func runC15(env *Env, s Scenario) {
 	k := env.K
 	client, server := simnet.Pipe(k, sc.Client, simnet.NetPlan{SegMode: "whole", Seed: 1}, true)
 	dialed := ""
+	var prior net.Conn
+	if len(sc.Prior) > 0 {
+		pc, ps := simnet.Pipe(k, simnet.NetPlan{SegMode: "whole"}, simnet.NetPlan{SegMode: "whole", Seed: 1}, true)
+		prior = pc
+		go func() {
+			k.Enter("telnet.server0")
+			k.Yield("server0.start")
+			_, _ = ps.Write(sc.Prior)
+			time.Sleep(time.Millisecond)
+			_ = ps.Close()
+		}()
+	}
 	simhook.DialFn = func(network, addr string) net.Conn {
 		dialed = network + " " + addr
+		if prior != nil {
+			c := prior
+			prior = nil
+
+			return c
+		}
 
 		return client
 	}
@@ -167,6 +191,11 @@ func runC15(env *Env, s Scenario) {
 	var openErr, readErr error
 	var openDur time.Duration
 	done := env.Go("user", func() {
+		if len(sc.Prior) > 0 {
+			env.Call("Open(prior)", func() { _ = tr.Open() })
+			env.Call("Close(prior)", func() { _ = tr.Close(true) })
+			env.Probe("transport-reopened-after-a-broken-opening")
+		}
 		t0 := k.Now()
 		if !env.Call("Open", func() { openErr = tr.Open() }) || openErr != nil {
 			return
